@@ -25,6 +25,9 @@ MANIFEST = dict(
 STRINGS = [''.join(p) for n in range(0, 4) for p in itertools.product('ab', repeat=n)]
 SCORES = [1.0, 0.5]
 EVENTS = [(h, s) for h in STRINGS for s in SCORES]
+N_MAIN = len(EVENTS)
+TINY = 1e-18                                      # a hypothesis ~41 nats below the best one: its arcs vanish next to 1.0 in float64
+EVENTS += [(h, TINY) for h in STRINGS]            # only used by the 'extreme' sub-sweep
 BOUNDS = {'quick': dict(depth=3), 'thorough': dict(depth=4)}
 BOUNDS['replay'] = BOUNDS['quick']
 EPS = 1e-9
@@ -38,7 +41,9 @@ def setup(tier):
 def shards(tier):
     d = BOUNDS[tier]['depth']
     out = [{'first': None}]      # histories of length 1
-    for i in range(len(EVENTS)):
+    for i in range(N_MAIN, len(EVENTS)):
+        out.append({'extreme': i})
+    for i in range(N_MAIN):
         for j in (range(len(EVENTS)) if d >= 4 else [None]):
             out.append({'first': i, 'second': j})
     return out
@@ -49,7 +54,18 @@ def run_shard(shard, ctx, tier):
     import sys
     mod = sys.modules[__name__]
     d = BOUNDS[tier]['depth']
-    n = len(EVENTS)
+    n = N_MAIN
+    if 'extreme' in shard:
+        # histories that contain a hypothesis with a vanishing score: the tiny event at any position of a history of length <= d - 1
+        t = shard['extreme']
+        guarded_check(mod, {'hist': [t]}, ctx)
+        for L in range(2, d):
+            for rest in itertools.product(range(len(EVENTS)), repeat=L - 1):
+                for pos in range(L):
+                    hist = list(rest[:pos]) + [t] + list(rest[pos:])
+                    if pos == 0 or all(x < N_MAIN for x in rest[:pos]):      # each history once: t is its first tiny event
+                        guarded_check(mod, {'hist': hist}, ctx)
+        return
     if shard['first'] is None:
         for i in range(n):
             guarded_check(mod, {'hist': [i]}, ctx)
@@ -148,6 +164,8 @@ def embedding_ok(before, after, score, transcript):
         if set(b) - set(a):
             return False
         diffs = [k for k in b if abs(a[k] - b[k]) > EPS]
+        if not diffs and score <= EPS:
+            return True                     # a vanishing score is absorbed by the float sum; nothing observable has to change
         return len(diffs) == 1 and abs(a[diffs[0]] - b[diffs[0]] - score) <= EPS
 
     def is_new(a):
@@ -235,6 +253,8 @@ def check_case(case, ctx):
         return
     ctx.state(canon(after))
     desc = f'history {hist}: before={before} after={after}'
+    if any(sc == TINY for _, sc in hist):
+        ctx.tag('vanishing-score-hypothesis')
 
     inc, w = included(before, after) if before else (True, None)
     if not inc:
@@ -312,5 +332,5 @@ def describe(tier):
                 'every history and on the final network. Non-trivial: an add that inserted >= 2 new positions at once.',
         'bounds': BOUNDS[tier], 'alphabets': {'strings': STRINGS, 'scores': SCORES},
         'assumptions': ['sorted_cn_paths is compared with the full product only when the product has <= 4000 paths (counter reports skips)'],
-        'min_nontrivial': 20, 'required_tags': ['insertion', 'several-insertions-in-one-add', 'bag-with-lm-scores'],
+        'min_nontrivial': 20, 'required_tags': ['vanishing-score-hypothesis', 'insertion', 'several-insertions-in-one-add', 'bag-with-lm-scores'],
     }
